@@ -11,7 +11,7 @@
 
    Everything is per batch item; the batch axis is a [map] (all tensor operations of the source
    are element-wise along B).  Code transcribed as it is: which prefix-rotation index each frame
-   uses, the order of the reversed cumulative matrix product, the 1/dt factor, the (-M) @ Ha and
+   uses, the order of the reversed cumulative matrix product ([code_left]), the 1/dt factor, the (-M) @ Ha and
    (-0.5 * M) @ Ha groupings, the state written back when reset=False.
 
    Outside the model (returns None): F = 0 frames; size-1 broadcasting between dt/gyro/acc/rot
@@ -144,9 +144,11 @@ Definition propagate_cov_gen (left : bool) (cs : list cframe) (init_cov : @mat F
   | Some c => let Alc := rev c in                            (* .flip([1]) *)
               Some (msum (zip_with congr Alc Bs))            (* sum(A_left_cum @ B_cov @ A_right_cum) *)
   end.
-(* the flag the source hands to cumprod in propagate_cov: `cumprod(A.flip([1]), dim=1)` = default left=True *)
-Definition code_left : bool := true.
+(* the flag the source hands to cumprod in propagate_cov: `cumprod(A.flip([1]), dim=1, left=False)` since /repo
+   commit 608b3d9; before it the default left=True was used ([propagate_cov_old], kept for the history theorem) *)
+Definition code_left : bool := false.
 Definition propagate_cov := propagate_cov_gen code_left.
+Definition propagate_cov_old := propagate_cov_gen true.
 
 (* ---- module state and forward (one batch item) ---- *)
 Record istate := { s_pos : @vec3 F; s_rot : @quat F; s_vel : @vec3 F; s_cov : @mat F; s_rij : option (@quat F) }.
@@ -183,6 +185,7 @@ Definition forward1_gen (left : bool) (c : cfg) (st : istate) (fs : list iframe)
     end
   end.
 Definition forward1 := forward1_gen code_left.
+Definition forward1_old := forward1_gen true.
 
 (* ---- constructor ---- *)
 Definition mk_cfg (g : F) (gyro_cov acc_cov : @vec3 F) (prop_cov reset : bool) : option cfg :=
